@@ -17,7 +17,9 @@ THEOREMS = [
     "B2Z.Dmg.C18_encode_detects", "B2Z.Dmg.C18_encode_undamaged",
     "B2Z.ChunkFile.C18_chunk_prefix_rejected", "B2Z.ChunkFile.C18_chunk_intact", "B2Z.ChunkFile.C18_chunk_accepts_only_whole_frames",
     "B2Z.ChunkFile.storedFrame_wellFramed", "B2Z.ChunkFile.C18_unrepaired_overread_counterexample",
+    "B2Z.ChunkFile.C18_gen_read_chunk_guard",
 ]
+GEN_DEPENDS = ["ChunkFile."]
 ASSUMPTIONS = [
     "PARTIAL — hypothesis CodecRejectsPrefix for chunk_index (pickle) and metadata.json (JSON): decoding a strict prefix raises. It is a property of pickle/json, not proved; the harness enumerates it (every truncation length of every file of small stores). For chunk files it is no longer a hypothesis (repair F12): read_chunk refuses a file whose size differs from its Blosc header, proved for every decompressor (C18_chunk_prefix_rejected)",
     "chunk files are written as one Blosc frame whose header bytes 12-15 hold the frame length (Blosc 1 format; checked on every real chunk file by the frame correspondence)",
